@@ -297,7 +297,14 @@ func runHistory(rep *vh.Report, ps *sut.ProxyStack, stream string, idx int, r *r
 		track("refresh", rtok)
 		track("profile", newTok)
 
-		rs, _, cleared := b.Do(sut.Req{Target: p.target})
+		stepReq := sut.Req{Target: p.target}
+		if r.Intn(4) == 0 {
+			// client-chosen headers that change how the proxy ANSWERS (XHR: JSON errors) must not change
+			// WHETHER a due check is made (added after seeded change C04n)
+			stepReq.Headers = [][2]string{[][2]string{{"X-Requested-With", "XMLHttpRequest"}, {"Accept", "application/json"}, {"X-Requested-With", "xmlhttprequest"}, {"Sec-Fetch-Mode", "cors"}}[r.Intn(4)]}
+			rep.Count("steps_with_xhr_like_headers", 1)
+		}
+		rs, _, cleared := b.Do(stepReq)
 		rep.Count("steps", 1)
 		if rs.Err != nil {
 			rep.Count("client_errors", 1)
